@@ -226,7 +226,11 @@ func genLikeTok(t *rapid.T, label string) string {
 }
 
 func genLike(t *rapid.T) likeCase {
-	s := genStr(t, "s", 8)
+	return genLikeFor(t, genStr(t, "s", 8))
+}
+
+// genLikeFor draws a LIKE pattern for the given subject (same draws as genLike after the subject).
+func genLikeFor(t *rapid.T, s string) likeCase {
 	rs := []rune(s)
 	var toks []string
 	mode := rapid.IntRange(0, 9).Draw(t, "mode")
@@ -842,8 +846,11 @@ func newRec() *ev.Rec {
 			"regex_vs_go: patterns from a grammar (escaped and raw literals, ., classes, \\S \\W \\D \\B \\pL \\PL ..., repetition, groups with flags, anchors, alternation), subjects drawn from the alphabet plus the pattern's letters and their case/fold partners; oracle regexp.MatchString(p, s) for ~ and regexp.MatchString(\"(?i)\"+p, s) for ~*, a pattern Go rejects must give an error. "+
 			"upper_lower_reverse: per-rune unicode mapping or strings.ToUpper/ToLower (both accepted), rune reversal and reverse(reverse(s))=s. replace_position: needle mostly a substring of the subject (also repetitive subjects), naive left-to-right replacement, first occurrence (byte or character offset accepted) or NULL. "+
 			"len_substr: len additive over + and = character count on ASCII; substr(s,0)=s; substr(s,position(s,t),len(t))=t; substr(s,i)=substr(s,i,len(s)); substr(s,i,n)+substr(s,i+n)=substr(s,i) for 0<=i,n<=len+2; direct slice model on ASCII subjects. "+
+			"sql_like / sql_regex (the SQL surface: parser -> logical plan -> typecheck -> optimizer on AND off -> materialise -> run, over an in-memory table mem.t(id, s, p) and, for the regex operators, over real .lines files): "+
+			"sql_like: 3-6 rows; the literal pattern is 30% wildcard-free over a backslash-heavy alphabet (every rune of the subject as a literal, escaped where LIKE needs it, with an occasional dropped/substituted rune), 20% derived from such a subject with wildcards, 50% a like_vs_model pair; rows always include the main subject, an instance of the pattern, the pattern's own text and the subject with doubled backslashes; the pattern is printed as a SQL string literal with randomly chosen equivalent spellings ('' or \\' for a quote, raw or \\n for a newline, \\\\ or a lone backslash where the tokenizer keeps it) and every query is parsed back with octosql's sqlparser: its string literals must be byte-equal to the intended pattern, otherwise the case is discarded; shapes SELECT (s LIKE lit), SELECT (s NOT LIKE lit), WHERE s LIKE lit, WHERE s NOT LIKE lit, WHERE s LIKE lit AND id != k, WHERE (s LIKE lit) = (s NOT LIKE lit), and the same with the pattern taken from column p; a WHERE query must return exactly the ids whose predicate is TRUE under model.LikeMatch; a malformed escape in any evaluated pattern relaxes that query to 'no crash'. "+
+			"sql_regex: rows from regex_vs_go pairs plus (pattern text as subject, subject text as pattern), operator in {~, ~*, !~, !~*}; shapes with the literal on the right (t.s ~ 'P'), on the LEFT ('S' ~ t.p: the column is the pattern), both sides columns, each as SELECT expression and as WHERE, WHERE with an extra conjunct on either side; the newline-free subjects / patterns are also written to two .lines files and queried as l.text ~ 'P', 'S' ~ l.text, with AND l.number != k, and as SELECT expressions; oracle regexp.MatchString(['(?i)'+]pattern, subject); a row whose pattern Go rejects demands an error from the query unless the other conjunct of an AND is FALSE on that row (then error or the exact result are both accepted). "+
 			"native_fuzz (thorough tier only): go test -fuzz over (subject, pattern, operator in {LIKE, ~, ~*}), valid UTF-8 of at most 200 bytes each, seeded with hand-picked pairs; same oracles. "+
-			"non-trivial: (pattern has a wildcard or a literal/regex metacharacter) AND (subject has a metacharacter, newline or multibyte rune); for the pattern-free subs: the subject (or needle) has one. distinct = canonical case JSON",
+			"non-trivial: (pattern has a wildcard or a literal/regex metacharacter) AND (subject has a metacharacter, newline or multibyte rune); for the pattern-free subs: the subject (or needle) has one; sql_like: the literal pattern is well formed, has a wildcard, an escape or a literal metacharacter and is TRUE on some rows and not on others; sql_regex: the literal pattern has a regex operator and one of the literal shapes is TRUE on some rows and not on others. distinct = canonical case JSON",
 		"only valid UTF-8 is generated; negative substr arguments and empty replace needles are outside this property (C07)",
 		"a deviation is attributed to a known finding only when octosql's answer equals what the harness's model of that defect answers (LIKE: '*' and '|' left raw / wildcards refusing newline; ~*: lower-casing pattern and subject) or, for reverse, when the input has a multibyte rune")
 }
@@ -857,5 +864,7 @@ func TestC12(t *testing.T) {
 	}, unaryProp(r))
 	ev.Check(t, r, "replace_position", ev.N(30000, 500000), genRepl, replProp)
 	ev.Check(t, r, "len_substr", ev.N(30000, 500000), genSub, subProp)
+	ev.Check(t, r, "sql_like", ev.N(5000, 100000), genSQLLike, sqlLikeProp(r))
+	ev.Check(t, r, "sql_regex", ev.N(3000, 60000), genSQLRegex, sqlRegexProp(r))
 	ev.ReplayOnly(t, r, "native_fuzz", c12FuzzProp(r))
 }
